@@ -22,7 +22,7 @@ ASSUMPTIONS = ["QR and SVD primitives satisfy their contract (orthonormal factor
 def make(rng, tier):
     out = []
     orders = [1, 2, 3, 4, 5] if tier == "quick" else [1, 2, 3, 4, 5, 6, 7]
-    reps = 5 if tier == "quick" else 14
+    reps = 10 if tier == "quick" else 24
     for d in orders:
         for rep in range(reps):
             dtname = ["f64", "c128", "f32"][(d + rep) % 3]
@@ -131,6 +131,13 @@ def round_case(rec, label, x, eps, rmax):
             for (s, e, r), k in zip(box["calls"], range(d - 1, 0, -1)):
                 if r > rm[k]:
                     binding = True
+        tot = 0.0
+        for (s, e, r) in box["calls"]:
+            ns = float(np.linalg.norm(s))
+            if ns > 0:
+                tot += (e / ns) ** 2
+        if tot > eps * eps * (1 + 1e-9) + 1e-300:
+            return "per-bond allowances sum to %.6g > eps^2 = %.6g" % (tot, eps * eps)
         if not binding:
             dy = dense_of(y).to(dx.dtype)
             err = float(tn.linalg.norm((dy - dx).reshape(-1)))
